@@ -21,6 +21,7 @@ EXPLANATION = (
     "collapses configurations with equal predicate vectors; the thorough tier enumerates every tag. Exhaustive over the extracted "
     "space; that real firmware answers full-length blocks is assumed."
     ' (R0) the window argument is about the fetched block: trim_response must cut header and checksum by constants, a bound computed from unchecked response bytes is a violation.'
+    ' (R2) the modbus-N reads ask for register int(id[7:]), exactly one register, and decode its 2 bytes big-endian and signed; (R3) every constant block request asks for 1..125 registers inside the 16-bit address space.'
 )
 
 
@@ -65,6 +66,16 @@ def check(ctx: Ctx, rep: Report, thorough: bool = False):
     # only if trim_response cuts header and checksum by constant amounts (framing model; C14.R0 when it does not)
     from ..framing import families
     ctx.memo("families", lambda: families(ctx.prog, ctx.res))
+    # the blocks themselves are requests a Modbus inverter can answer: 1..125 registers inside the 16-bit address space
+    # (a count above 125 needs a byte count above 255: no answer can ever match it)
+    rep.rule("C14.R3", "every constant block request asks for 1..125 registers inside the 16-bit address space", 10)
+    from ..tables import read_commands
+    for famname in ("ET", "DT"):
+        for attr, (first, count, node) in sorted(read_commands(ctx.prog, ctx.res, ctx.prog.cls(famname)).items()):
+            ok = isinstance(first, int) and isinstance(count, int) and 1 <= count <= 125 and 0 <= first and first + count <= 0x10000
+            rep.check(ok, "C14.R3", "block:%s.%s" % (famname, attr), ctx.prog.cls(famname).methods["__init__"].loc(node),
+                      "%s.%s reads [%s, %s)" % (famname, attr, first, first + count if isinstance(first, int) and isinstance(count, int) else "?"),
+                      bad="%s.%s asks for %s registers from %s: not a request a Modbus inverter can answer (1..125 registers, addresses 0..65535) - every sensor of the block is lost or made of missing bytes" % (famname, attr, count, first))
     dec = decoders_ctx(ctx)
     nconf = nout = 0
     verdicts: Dict[Tuple[str, str, str], Dict] = {}
@@ -145,17 +156,45 @@ def r2(ctx: Ctx, rep: Report):
                     continue
                 seen.add(key)
                 fn_of = p.fn_at(next(i for i, ev in enumerate(p.events) if ev.node is decs[0]), m)
-                nbytes = prog.consteval(decs[0].args[0].args[0], fn_of.module)
-                cnt = prog.consteval(reqs[0].args[1], fn_of.module)
+                from ..model import NotConst
+                try:
+                    nbytes = prog.consteval(decs[0].args[0].args[0], fn_of.module)
+                    cnt = prog.consteval(reqs[0].args[1], fn_of.module)
+                except NotConst:
+                    n += 1
+                    rep.violation("C14.R2", "modbus-n:%s.%s" % (famname, mname), fn_of.loc(reqs[0]),
+                                  "%s.%s('modbus-N') requests %s register(s) and decodes %s byte(s): not the constants 1 and 2" % (famname, mname, norm(reqs[0].args[1]), norm(decs[0].args[0].args[0])))
+                    continue
                 n += 1
-                rep.check(len(reqs) == 1 and len(decs) == 1 and nbytes <= 2 * cnt, "C14.R2", "modbus-n:%s.%s" % (famname, mname), fn_of.loc(decs[0]),
-                          "%s.%s('modbus-N') decodes %d bytes of the %d register(s) it fetches" % (famname, mname, nbytes, cnt),
-                          bad="%s.%s('modbus-N') decodes %d bytes from a %d-register answer" % (famname, mname, nbytes, cnt))
+                # the register asked for is the N of the id: int(<id>[len('modbus-'):]); exactly that one register is
+                # fetched and its two bytes are decoded big-endian, signed (the write side of the escape hatch sends
+                # int(value) in two's complement)
+                from ..symx import Sym
+                from ..replay import Replay
+                rp = Replay(prog, m, p)
+                ri = next(i for i, ev in enumerate(p.events) if ev.node is reqs[0])
+                addr = rp.sym_at(ri).lin(reqs[0].args[0]).single_term()
+                idp = m.params[1]
+                ok_addr = addr is not None and addr[0] == "slice" and addr[1] == ("var", idp) and addr[2] is not None and addr[2].is_const() \
+                    and addr[2].const == len("modbus-") and addr[3] is None
+                di = next(i for i, ev in enumerate(p.events) if ev.node is decs[0])
+                dt = rp.sym_at(di).lin(decs[0]).single_term()
+                ok_dec = dt is not None and dt[0] == "int" and dt[2] == "big" and dt[3] is True
+                why = []
+                if not (len(reqs) == 1 and len(decs) == 1 and nbytes == 2 and cnt == 1):
+                    why.append("decodes %d byte(s) of a %d-register answer (one register = 2 bytes)" % (nbytes, cnt))
+                if not ok_addr:
+                    why.append("asks for register %s, not int(%s[7:]) - the N of 'modbus-N'" % (norm(reqs[0].args[0]), idp))
+                if not ok_dec:
+                    why.append("does not decode the register big-endian and signed")
+                rep.check(not why, "C14.R2", "modbus-n:%s.%s" % (famname, mname), fn_of.loc(decs[0]),
+                          "%s.%s('modbus-N') fetches register N and decodes its 2 bytes big-endian, signed" % (famname, mname),
+                          bad="%s.%s('modbus-N') %s" % (famname, mname, "; ".join(why)))
     if n < 4:
         raise AnalysisError("only %d modbus-N read sites found" % n)
 
 
 def check_thorough(ctx: Ctx, rep: Report):
     # re-run the enumeration over every serial-number tag and the finer power classes
-    rep.obligations = [o for o in rep.obligations if o.rule != "C14.R1" and o.rule != "C14.R2"]
+    rep.obligations = [o for o in rep.obligations if o.rule not in ("C14.R1", "C14.R2", "C14.R3")]
     check(ctx, rep, thorough=True)
